@@ -49,7 +49,8 @@ def bits(n, dup=True):
 
 
 def evenlist(lo, hi):
-    return st.lists(intv, min_size=lo, max_size=hi).map(lambda l: sorted(l)[: len(l) // 2 * 2])
+    # zone edges may be fractional in a UFO; the CFF private dict stores them rounded
+    return st.lists(st.one_of(intv, intv, st.integers(-4000, 4000).map(lambda k: k / 4)), min_size=lo, max_size=hi).map(lambda l: sorted(l)[: len(l) // 2 * 2])
 
 
 ATTRS = {
